@@ -61,6 +61,10 @@ CONSTANTS Writers, Subs, Ids, MaxV,
                                \* sends to are the ones registered at the removal); FALSE: it unlocks first and copies the
                                \* listeners when the send begins (DSnap) -- a subscription opened in between has a seed
                                \* without the item and is still sent its REMOVE
+          DeleteRechecks,      \* TRUE = the code: under the write lock Delete always compares the item's identity with
+                               \* the one it read and goes round again if it changed; FALSE: only when the call carries a
+                               \* precondition -- an unconditional Delete then removes whatever is there and announces
+                               \* (and returns) the value it read earlier
           Equiv,               \* "none": no equivalence configured.  "coll" / "val": the resource suppresses changes
                                \* equivalent (here: equal) to what the subscriber holds -- a Collection judges a change
                                \* against what the receiver was last sent for the id (its old value if it was sent
@@ -285,7 +289,7 @@ DLock(w) ==
   LET c == prog[w]  cur == store[c.id] IN
   /\ pc[w] = "dlock" /\ mu.w = NoW /\ mu.r = {} /\ SerFree(w)
   /\ Step("DLock", w)
-  /\ IF cur.ver # loc[w].ver \/ (cur.v = Absent) # (loc[w].old = Absent)
+  /\ IF ((DeleteRechecks \/ c.e # NoExp \/ c.chk) /\ cur.ver # loc[w].ver) \/ (cur.v = Absent) # (loc[w].old = Absent)
        THEN \* somebody changed the item while the precondition was being checked: unlock, look at the
             \* item found and go round the loop again (the loop top runs in the same breath)
             LET t == DTop(c, cur.v, loc[w].attempt + 1) IN
@@ -299,7 +303,8 @@ DLock(w) ==
                  THEN /\ pc' = [pc EXCEPT ![w] = "done"] /\ UNCHANGED <<pub, mu>>
                       /\ loc' = [loc EXCEPT ![w].ret = cur.v, ![w].err = "OK"]
                  ELSE /\ pub' = [pub EXCEPT ![w] = [id |-> c.id, v |-> Absent, seq |-> Len(commitLog) + 1, add |-> FALSE,
-                                                     targets |-> lsn, copy |-> lsn, gc |-> FALSE, pre |-> cur.v]]
+                                                     targets |-> lsn, copy |-> lsn, gc |-> FALSE,
+                                                     pre |-> IF DeleteRechecks THEN cur.v ELSE loc[w].old]]
                       /\ pc' = [pc EXCEPT ![w] = IF DeleteHoldsLock THEN "ddeliver" ELSE "dsnap"]
                       /\ loc' = [loc EXCEPT ![w].ret = cur.v]
                       /\ mu' = Take(w, IF DeleteHoldsLock THEN [mu EXCEPT !.w = w] ELSE mu)  \* Delete sends while holding the write lock
